@@ -1,5 +1,7 @@
 """C05 Frame axes and frequency/index conversion (DESIGN §4.C05)."""
 import ast
+from vstatic.argbind import resolve_callee
+from vstatic.baseline import BASELINE_FUNCS
 from vstatic import terms as T
 from vstatic.terms import sym, Term, lift, pretty
 
@@ -129,6 +131,21 @@ def run(ctx):
                 if isinstance(n, (ast.BinOp, ast.Compare, ast.UnaryOp)):
                     if any(isinstance(c, ast.Name) and c.id == pn for c in ast.iter_child_nodes(n)):
                         arith.append(n)
+            # conversion delegated to a helper that a refactoring extracted: `p = helper(p, ...)` where the helper passes the
+            # matching formal through unit_utils
+            for n in ast.walk(f2.node):
+                if isinstance(n, ast.Assign) and isinstance(n.value, ast.Call) and \
+                        any(isinstance(t_, ast.Name) and t_.id == pn for tg in n.targets for t_ in ast.walk(tg)):
+                    rc = resolve_callee(ctx.prog, f2, n.value)
+                    if rc is None or rc[0].short in BASELINE_FUNCS:
+                        continue
+                    formals = rc[0].params()[1:] if rc[1] else rc[0].params()
+                    for i_, a_ in enumerate(n.value.args):
+                        if isinstance(a_, ast.Name) and a_.id == pn and i_ < len(formals):
+                            fm = formals[i_]
+                            if any(isinstance(m, ast.Call) and ast.unparse(m.func).split('.')[-1] in ('get_value', 'cast_value')
+                                   and m.args and isinstance(m.args[0], ast.Name) and m.args[0].id == fm for m in ast.walk(rc[0].node)):
+                                conv.append(n)
             first = min((c.lineno for c in conv), default=None)
             bad = [a for a in arith if first is None or a.lineno < first]
             if bad:
